@@ -124,3 +124,76 @@ Proof.
         subst dn. destruct pit; auto. destruct vs as [|v vs']; [exfalso; apply H7; auto|reflexivity].
 Qed.
 End Walk.
+
+(* ---------- upper bound on the length of cut pieces ---------- *)
+(* Python round() is within one half of its argument *)
+Lemma py_round_spec a (b : positive) :
+  2 * a - Zpos b <= 2 * py_round (a # b) * Zpos b <= 2 * a + Zpos b.
+Proof.
+  unfold py_round. set (f := Qfloor (a # b)).
+  assert (Hf : f = a / Zpos b) by reflexivity.
+  pose proof (Z.div_mod a (Zpos b) ltac:(lia)) as Hdm. pose proof (Z.mod_pos_bound a (Zpos b) ltac:(lia)) as Hmb.
+  rewrite <- Hf in Hdm.
+  destruct (Qcompare ((a # b) - inject_Z f) (1 # 2)) eqn:C; unfold Qcompare, Qminus, Qplus, Qopp, inject_Z in C; cbn [Qnum Qden] in C;
+    rewrite Pos.mul_1_r in C.
+  - apply Z.compare_eq in C. clear Hf; clearbody f; set (B := Zpos b) in *; clearbody B; set (r := a mod B) in *; clearbody r; subst a.
+    destruct (Z.even f); nia.
+  - rewrite Z.compare_lt_iff in C. clear Hf; clearbody f; set (B := Zpos b) in *; clearbody B; set (r := a mod B) in *; clearbody r; subst a. nia.
+  - rewrite Z.compare_gt_iff in C. clear Hf; clearbody f; set (B := Zpos b) in *; clearbody B; set (r := a mod B) in *; clearbody r; subst a. nia.
+Qed.
+
+Theorem cut_piece_bound idxs m p : 0 < m -> In p (cut idxs m) -> 2 * Z.of_nat (length p) <= 3 * m + 3.
+Proof.
+  intros Hm. unfold cut. set (l := Z.of_nat (length idxs)).
+  destruct ((l >? m) && (m >? 0)) eqn:Hc.
+  2:{ intros [<-|[]]. fold l. apply andb_false_iff in Hc. destruct Hc as [Hc|Hc]; [|lia]. lia. }
+  apply andb_true_iff in Hc. destruct Hc as [Hlm _]. assert (Hl : m < l) by lia. clear Hlm.
+  assert (Hpm : Zpos (Z.to_pos m) = m) by (apply Z2Pos.id; lia).
+  destruct (Qlt_le_dec (3 # 2) (l # Z.to_pos m)) as [Hr|Hr].
+  - unfold Qlt in Hr. cbn [Qnum Qden] in Hr. rewrite Hpm in Hr.
+    pose proof (py_round_spec l (Z.to_pos m)) as Hk. rewrite Hpm in Hk.
+    set (k := py_round (l # Z.to_pos m)) in *.
+    assert (Hk2 : 2 <= k) by nia.
+    assert (Hpk : Zpos (Z.to_pos k) = k) by (apply Z2Pos.id; lia).
+    pose proof (py_round_spec l (Z.to_pos k)) as Hn. rewrite Hpk in Hn.
+    set (n := py_round (l # Z.to_pos k)) in *.
+    assert (Hkl : k <= l) by nia.
+    assert (Hn0 : 0 < n) by nia.
+    clearbody k n. intros Hin. apply in_map_iff in Hin. destruct Hin as [i [Hp Hi]]. apply in_seq in Hi.
+    destruct (Z.of_nat i + 1 =? k) eqn:Elast.
+    + apply Z.eqb_eq in Elast. subst p. rewrite skipn_length.
+      assert (Hlen : Z.of_nat (length idxs - i * Z.to_nat n) = Z.max 0 (l - (k - 1) * n)).
+      { unfold l. rewrite Nat2Z.inj_sub_max, Nat2Z.inj_mul, Z2Nat.id by lia. replace (Z.of_nat i) with (k - 1) by lia. lia. }
+      rewrite Hlen. clear Hlen Hi Elast.
+      destruct (Z_le_gt_dec k m) as [Hkm|Hkm].
+      * (* k <= m *)
+        assert (H1 : 2 * k * (l - (k - 1) * n) <= 2 * l + k * (k - 1)) by nia.
+        assert (H2 : 0 <= (k - 2) * (m - k)) by nia.
+        nia.
+      * (* k > m: the pieces have exactly m links *)
+        assert (Hnm : n = m) by nia. subst n. nia.
+    + apply Z.eqb_neq in Elast. subst p. unfold slice. rewrite firstn_length.
+      assert (Hle : (Nat.min (Z.to_nat n * (i + 1) + 1 - i * Z.to_nat n) (length (skipn (i * Z.to_nat n) idxs)) <= S (Z.to_nat n))%nat).
+      { etransitivity; [apply Nat.le_min_l|]. nia. }
+      assert (H3 : 2 * n <= 3 * m + 1) by nia.
+      lia.
+  - unfold Qle in Hr. cbn [Qnum Qden] in Hr. rewrite Hpm in Hr.
+    intros Hin. cbn in Hin. destruct Hin as [<-|[]]. change (Z.of_nat 0 + 1 =? 1) with true. cbv iota. cbn [Nat.mul skipn]. fold l. lia.
+Qed.
+
+(* every feature of a vectorisation with a positive maximum length has at most 1.5 * max_len + 1.5 vertices *)
+Theorem streams_piece_bound ds sq mask m p : 0 < m -> In p (streams ds sq mask m) -> 2 * Z.of_nat (length p) <= 3 * m + 3.
+Proof.
+  intros Hm. unfold streams.
+  assert (G : forall P st, (forall q, In q (snd st) -> 2 * Z.of_nat (length q) <= 3 * m + 3) ->
+              forall q, In q (snd (fold_left (sstep ds (upstream_count ds mask) mask m) P st)) -> 2 * Z.of_nat (length q) <= 3 * m + 3).
+  { induction P as [|i P IH]; intros st Hst; cbn [fold_left]; [exact Hst|].
+    apply IH. intros q. unfold sstep. destruct st as [dn out].
+    destruct (nth i dn false || negb (mget mask i)); [apply Hst|].
+    destruct (swalk ds (upstream_count ds mask) (length ds) i) as [[dn' vs] pit]. cbn [snd].
+    rewrite !in_app_iff. intros [Hq|[Hq|Hq]].
+    - apply Hst. exact Hq.
+    - apply (cut_piece_bound _ _ _ Hm Hq).
+    - destruct pit; [|destruct Hq]. destruct Hq as [<-|[]]. cbn [length]. lia. }
+  apply G. cbn [snd]. intros q [].
+Qed.
